@@ -9,7 +9,7 @@ from ..core.callgraph import callgraph
 from ..core.defuse import is_identity
 from ..core.match import txt
 from ..core.source import AnchorMissing
-from .common import DEC, DECAY, PUTIL, ckey, fn, returns, where
+from .common import DEC, DECAY, PUTIL, ckey, fn, returns, single_def, where
 
 PROP = "C04"
 FILES = [PUTIL, DECAY, DEC]
@@ -160,6 +160,10 @@ def c04_3(ctx, ss):
         raise AnchorMissing("DaughtersDict.charge_conjugate: expected one return")
     v = rets[0].value
     k = ckey(ff, None, "map")
+    if isinstance(v, ast.Call) and len(v.args) == 1 and isinstance(v.args[0], ast.Name):
+        d_ = single_def(flow, v.args[0])           # the mapping may be built under a local name first
+        if d_ is not None and d_.kind == "assign" and d_.path == () and isinstance(d_.value, ast.DictComp):
+            v = ast.Call(func=v.func, args=[d_.value], keywords=v.keywords)
     if not (isinstance(v, ast.Call) and txt(v.func) in ("self.__class__", "DaughtersDict", "type(self)") and len(v.args) == 1 and isinstance(v.args[0], ast.DictComp)):
         raise AnchorMissing("DaughtersDict.charge_conjugate: not class(dict comprehension)")
     dc = v.args[0]
@@ -193,6 +197,8 @@ def c04_4(ctx, ss):
         raise AnchorMissing("DecayMode.charge_conjugate does not construct a mode")
     bf = c.args[0] if c.args else next((kw.value for kw in c.keywords if kw.arg == "bf"), None)
     dd = c.args[1] if len(c.args) > 1 else next((kw.value for kw in c.keywords if kw.arg == "daughters"), None)
+    if dd is not None:
+        dd = flow.expand(dd)          # the conjugated daughters may be held in a local first
     meta = [kw for kw in c.keywords if kw.arg is None]
     (ctx.holds if bf is not None and txt(bf) == "self.bf" else ctx.violation)(
         "C04.4", k + " :: bf", where(ff, c), "branching fraction forwarded unchanged" if bf is not None and txt(bf) == "self.bf"
